@@ -203,11 +203,108 @@ def run (j : Json) : Except String Json := do
       ("link_items", jArr (fun p => jArr jNat [p.1, p.2]) s.links.items)])
 end DrvG
 
+/-- CTMC specification: enabled events and rates in a given status vector -/
+def DrvChainRates (j : Json) : Except String Json := do
+  let P ← DrvG.getParams j
+  let stl ← getList getStr (← fld j "status")
+  let st : Node → St := fun u => match stl.getD u "S" with | "I" => St.I | "R" => St.R | _ => St.S
+  let recs := (Chain.enabledRec P st).map fun u => Json.arr #[Json.str "r", jNat u, jRat (Chain.nodeRate P u)]
+  let trs := (Chain.enabledTrans P st).map fun p => Json.arr #[Json.str "t", jNat p.1, jNat p.2, jRat (Chain.edgeRate P p.1 p.2)]
+  pure (Json.mkObj [("ok", Json.bool true), ("events", Json.arr (recs ++ trs).toArray), ("total", jRat (Chain.totalRate P st))])
+
+/-! ### predicates evaluated on implementation output -/
+namespace DrvPred
+open Pred
+
+def getTraj (j : Json) : Except String Traj := do
+  let times ← getList getRat (← fld j "times")
+  let cols ← getList (getList (fun x => x.getInt?)) (← fld j "cols")
+  pure { times := times, cols := cols }
+
+def jTraj (t : Traj) : Json := Json.mkObj [("times", jArr jRat t.times), ("cols", jArr (jArr jInt) t.cols)]
+
+def getKind (s : String) : Except String TrajKind :=
+  match s with
+  | "sirCont" => pure .sirCont | "sisCont" => pure .sisCont | "sirDisc" => pure .sirDisc
+  | "sisDisc" => pure .sisDisc | "generic" => pure .generic
+  | _ => .error "bad kind"
+
+def getHist (j : Json) : Except String Hist :=
+  getList (fun e => do
+    match ← getArr e with
+    | [t, s] => pure ((← getRat t), (← getStr s))
+    | _ => .error "bad hist entry") j
+
+def getTrans (j : Json) : Except String Trans := do
+  match ← getArr j with
+  | [t, u, v] =>
+    let src ← (match u with | .null => pure none | x => (getNat x).map some)
+    pure { t := (← getRat t), src := src, tgt := (← getNat v) }
+  | _ => .error "bad transmission"
+
+def wf (j : Json) : Except String Json := do
+  let kind ← getKind (← getStr (← fld j "kind"))
+  let N ← getNat (← fld j "N")
+  let tmin ← getRat (← fld j "tmin")
+  let tmax ← getERat (← fld j "tmax")
+  let ext ← getBool (← fld j "extinct")
+  let col ← getBool (← fld j "collapsed")
+  let tr ← getTraj j
+  pure (Json.mkObj [("ok", Json.bool true), ("holds", Json.bool (wellFormed kind N tmin tmax ext col tr))])
+
+def tv (j : Json) : Except String Json := do
+  let sir ← getBool (← fld j "sir")
+  let shift ← getRat (← fld j "shift")
+  let N ← getNat (← fld j "N")
+  let succ ← getList (getList getNat) (← fld j "succ")
+  let tmin ← getRat (← fld j "tmin")
+  let init ← getList getNat (← fld j "init")
+  let hs ← getList getHist (← fld j "hists")
+  let trs ← getList getTrans (← fld j "trans")
+  pure (Json.mkObj [("ok", Json.bool true),
+    ("holds", Json.bool (transmissionsValid sir shift N (listFn succ []) tmin init hs trs))])
+
+/-- C10: histories well-formed, summary spec on the implementation's histories, collapsed arrays, node_status queries -/
+def c10 (j : Json) : Except String Json := do
+  let sir ← getBool (← fld j "sir")
+  let tmin ← getRat (← fld j "tmin")
+  let hs ← getList getHist (← fld j "hists")
+  let statuses ← getList getStr (← fld j "statuses")
+  let spec := summarySpec hs statuses
+  let histOK := hs.all (histWF sir tmin)
+  let arrEq ← match fldOpt j "arrays" with
+    | none => pure true
+    | some a => do
+      let tr ← getTraj a
+      pure (trajEq (collapse tr) spec)
+  let qs ← getList (fun q => do
+      match ← getArr q with
+      | [v, t] => pure ((← getNat v), (← getRat t))
+      | _ => .error "bad query") (← fld j "queries")
+  let answers := qs.map fun (v, t) => match statusAt (hs.getD v []) t with | some s => Json.str s | none => Json.null
+  pure (Json.mkObj [("ok", Json.bool true), ("hist_wf", Json.bool histOK), ("arrays_eq", Json.bool arrEq),
+    ("summary", jTraj spec), ("answers", Json.arr answers.toArray)])
+
+def ic (j : Json) : Except String Json := do
+  let sir ← getBool (← fld j "sir")
+  let N ← getNat (← fld j "N")
+  let infs ← getList getNat (← fld j "infs")
+  let recs ← getList getNat (← fld j "recs")
+  let row0 ← getList (fun x => x.getInt?) (← fld j "row0")
+  let st ← getList getStr (← fld j "status")
+  pure (Json.mkObj [("ok", Json.bool true), ("holds", Json.bool (initialOK N infs recs row0 st sir))])
+end DrvPred
+
 def dispatch (j : Json) : Except String Json := do
   let op ← getStr (← fld j "op")
   match op with
   | "ld" => DrvLD.run j
   | "gillespie" => DrvG.run j
+  | "chain_rates" => DrvChainRates j
+  | "wf" => DrvPred.wf j
+  | "tv" => DrvPred.tv j
+  | "c10" => DrvPred.c10 j
+  | "ic" => DrvPred.ic j
   | _ => .error s!"unknown op {op}"
 
 def handle (line : String) : String :=
